@@ -248,6 +248,56 @@ Section Unmarshal.
         end
     end.
 
+  (* unmarshalPath + the child loop of Decoder.unmarshal: walks the children [kids] below the parent path
+     [parents], threading the field values; [um] is Decoder.unmarshal at the next depth (open recursion). *)
+  Fixpoint walk (um : ftype -> gval -> xnode -> res gval) (fs : list field)
+           (fuel2 : nat) (parents : list string) (kids : list xnode) (vals : list (string * gval))
+    {struct fuel2} : res (list (string * gval)) :=
+    match fuel2 with
+    | O => Err (EOther "out of fuel")
+    | Datatypes.S fuel2' =>
+      match kids with
+      | [] => Ok vals
+      | XText _ :: r => walk um fs fuel2' parents r vals
+      | (XElem cs cl _ ckids as c) :: r =>
+          match path_select fs parents cs cl with
+          | None => walk um fs fuel2' parents r vals
+          | Some (inl f) =>
+              do v <- um (f_type f) (field_get vals f) c;
+              walk um fs fuel2' parents r (assoc_set (f_go f) v vals)
+          | Some (inr ps) =>
+              do vals' <- walk um fs fuel2' ps ckids vals;
+              walk um fs fuel2' parents r vals'
+          end
+      end
+    end.
+
+  (* the struct case of Decoder.unmarshal, given the field list [fs] of the struct *)
+  Definition unmarshal_struct (um : ftype -> gval -> xnode -> res gval) (fs : list field) (walk_fuel : nat)
+             (cur : gval) (espace elocal : string) (eattrs : list xattr) (ekids : list xnode) : res gval :=
+    let vals0 := match cur with GStruct vs => vs | _ => [] end in
+    do vals1 <-
+       match xml_name_of fs with
+       | Some (xs, xl) =>
+           if negb (xl =?s "") && negb (xl =?s elocal) then Err (EOther "expected element type")
+           else if negb (xs =?s "") && negb (xs =?s espace) then Err (EOther "expected element in name space")
+           else Ok (assoc_set "XMLName" (GName espace elocal) vals0)
+       | None => Ok vals0
+       end;
+    do vals2 <- assign_attrs fs eattrs vals1;
+    do vals3 <- walk um fs walk_fuel [] ekids vals2;
+    do vals4 <-
+       match has_chardata fs with
+       | Some f => do v <- set_scalar (f_type f) (text_of_kids ekids); Ok (assoc_set (f_go f) v vals3)
+       | None => Ok vals3
+       end;
+    let vals5 :=
+       match has_innerxml fs with
+       | Some f => assoc_set (f_go f) (GBytes true "") vals4     (* content of innerxml is not modelled *)
+       | None => vals4
+       end in
+    Ok (GStruct vals5).
+
   (* [unmarshal fuel t cur e]: Decoder.unmarshal of start element [e] into a value of type [t] whose
      current content is [cur]. Fuel bounds the nesting depth (encoding/xml's own bound is 10000). *)
   Fixpoint unmarshal (fuel : nat) (t : ftype) (cur : gval) (e : xnode) {struct fuel} : res gval :=
@@ -268,52 +318,7 @@ Section Unmarshal.
         | TStruct name =>
             match assoc_get name sch with
             | None => Err (EOther "unknown struct")
-            | Some fs =>
-              let vals0 := match cur with GStruct vs => vs | _ => [] end in
-              (* XMLName check *)
-              do vals1 <-
-                 match xml_name_of fs with
-                 | Some (xs, xl) =>
-                     if negb (xl =?s "") && negb (xl =?s elocal) then Err (EOther "expected element type")
-                     else if negb (xs =?s "") && negb (xs =?s espace) then Err (EOther "expected element in name space")
-                     else Ok (assoc_set "XMLName" (GName espace elocal) vals0)
-                 | None => Ok vals0
-                 end;
-              do vals2 <- assign_attrs fs eattrs vals1;
-              (* children: path matching, threaded through the field values *)
-              let step :=
-                fix walk (fuel2 : nat) (parents : list string) (kids : list xnode) (vals : list (string * gval))
-                  {struct fuel2} : res (list (string * gval)) :=
-                  match fuel2 with
-                  | O => Err (EOther "out of fuel")
-                  | Datatypes.S fuel2' =>
-                    match kids with
-                    | [] => Ok vals
-                    | XText _ :: r => walk fuel2' parents r vals
-                    | (XElem cs cl _ ckids as c) :: r =>
-                        match path_select fs parents cs cl with
-                        | None => walk fuel2' parents r vals
-                        | Some (inl f) =>
-                            do v <- unmarshal fuel' (f_type f) (field_get vals f) c;
-                            walk fuel2' parents r (assoc_set (f_go f) v vals)
-                        | Some (inr ps) =>
-                            do vals' <- walk fuel2' ps ckids vals;
-                            walk fuel2' parents r vals'
-                        end
-                    end
-                  end in
-              do vals3 <- step (fuel' + List.length ekids + 64)%nat [] ekids vals2;
-              do vals4 <-
-                 match has_chardata fs with
-                 | Some f => do v <- set_scalar (f_type f) (text_of_kids ekids); Ok (assoc_set (f_go f) v vals3)
-                 | None => Ok vals3
-                 end;
-              let vals5 :=
-                 match has_innerxml fs with
-                 | Some f => assoc_set (f_go f) (GBytes true "") vals4     (* content of innerxml is not modelled *)
-                 | None => vals4
-                 end in
-              Ok (GStruct vals5)
+            | Some fs => unmarshal_struct (unmarshal fuel') fs (fuel' + List.length ekids + 64)%nat cur espace elocal eattrs ekids
             end
         | _ => set_scalar t (text_of_kids ekids)     (* string / int / bool / []byte element fields *)
         end
